@@ -552,6 +552,7 @@ var opKinds = []string{
 	"decode", "decode", "partial_decode",
 	"expand_decode", "expand_decode", "shared_expand_decode", "shared_expand_decode",
 	"dec_vars", "implied_type", "expand_vars",
+	"gohcl", "gohcl_expr", "static", "merge_content", "spec_misc",
 }
 
 // genCase generates a complete case from a run seed.  profile selects the
